@@ -60,7 +60,7 @@ func showWill(p *packet.Publish) string {
 		}
 		q = p.Header.Qos
 	}
-	return fmt.Sprintf("%s:%s:%d:%d", p.Topic, p.Payload, q, r)
+	return fmt.Sprintf("%s:%s:%d:%d", p.Topic, showHex(p.Payload), q, r)
 }
 
 func showS(s *api.SessionMetadatas, stamps bool) string {
@@ -162,7 +162,8 @@ func parseWill(s string) *packet.Publish {
 	if len(f) != 4 {
 		return nil
 	}
-	return &packet.Publish{Header: &packet.Header{Qos: int32(atoi(f[2])), Retain: f[3] == "1"}, Topic: []byte(f[0]), Payload: []byte(f[1])}
+	pl, _ := unhex(f[1])
+	return &packet.Publish{Header: &packet.Header{Qos: int32(atoi(f[2])), Retain: f[3] == "1"}, Topic: []byte(f[0]), Payload: pl}
 }
 
 func unEmpty(s string) string {
